@@ -10,6 +10,7 @@ InputRec ==
       [] kind = "namew" -> Common @@ [w |-> Wire(kind, lay, post), cur |-> lay.cur]
       [] kind \in {"rdw", "optw"} -> Common @@ [w |-> SpecBytes(lay), cur |-> Len(NPrefix), len |-> lay.len]
       [] kind = "optm" -> Common @@ [w |-> OptmBytes(lay), cur |-> OptmCur, len |-> Len(OptmRdata(lay))]
+      [] kind = "zinc" -> Common @@ [s |-> Text(ZincMain(lay)), sub |-> Text(ZincSub(lay))]
       [] OTHER -> Common @@ [s |-> Text(lay)]
 Emit == PrintT("BEH " \o ToJson(InputRec))
 =============================================================================
